@@ -40,28 +40,46 @@ def ground_obligations(ctx, tag, Q, nv, spin, feas, cost, strict, extra_assume=(
     if not used <= set(range(nv)) or nv > max_nv:
         return obs + [Ob('OUTSIDE-BOUND: too many variables', True)]
     dom = (1, -1) if spin else (0, 1)
-    X = list(itertools.product(dom, repeat=nv))
-    E = {xs: ctx.z(O.val_poly(Q, dict(enumerate(xs)), spin)) for xs in X}
-    F, C = {}, {}
-    for xs in X:
-        f = feas(xs); F[xs] = f if isinstance(f, z3.BoolRef) else z3.BoolVal(bool(f))
-        c = cost(xs); C[xs] = c if isinstance(c, z3.ExprRef) else ctx.z(c)
-    feasible_instance = z3.Or(list(F.values()))
-    m = z3.Real('m!min')
-    lower = z3.And([m <= e for e in E.values()])
-    def good(xs):
-        return z3.And(F[xs], E[xs] == C[xs], z3.And([z3.Implies(F[y], C[xs] <= C[y]) for y in X]))
-    pre = z3.And(feasible_instance, *extra_assume)
+    # The obligations depend on an assignment only through (energy, feasibility, cost): identical triples are encoded once.
+    # "cost is optimal" is encoded with one auxiliary real copt pinned to the minimum feasible cost
+    # (copt <= every feasible cost, copt == some feasible cost), so the formula is linear in the number of distinct triples.
+    T, Es, FC = {}, {}, {}
+    nX = 0
+    for xs in itertools.product(dom, repeat=nv):
+        nX += 1
+        ep = O.val_poly(Q, dict(enumerate(xs)), spin)
+        ke = frozenset(ep.items())
+        f = feas(xs); c = cost(xs)
+        kf = ('z', f.get_id()) if isinstance(f, z3.ExprRef) else bool(f)
+        if isinstance(c, z3.ExprRef): kc = ('z', c.get_id())
+        else:
+            cp = to_poly(c); kc = frozenset(cp.items())
+        if (ke, kf, kc) in T: continue
+        if ke not in Es: Es[ke] = ctx.z(ep)
+        if (kf, kc) not in FC:
+            FC[(kf, kc)] = (f if isinstance(f, z3.BoolRef) else z3.BoolVal(bool(f)), c if isinstance(c, z3.ExprRef) else ctx.z(cp))
+        T[(ke, kf, kc)] = (Es[ke],) + FC[(kf, kc)]
+    trip = list(T.values())
+    Evals = list(Es.values())
+    feasible_instance = z3.Or([f for f, _ in FC.values()])
+    m = z3.Real('m!min'); copt = z3.Real('c!opt')
+    lower = z3.And([m <= e for e in Evals])
+    optdef = z3.And(z3.And([z3.Implies(f, copt <= c) for f, c in FC.values()]), z3.Or([z3.And(f, copt == c) for f, c in FC.values()]))
+    def good(t):
+        e, f, c = t
+        return z3.And(f, e == c, c <= copt)
+    pre = z3.And(feasible_instance, optdef, *extra_assume)
+    info = {'assignments': nX, 'distinct (energy, feasible, cost) triples': len(trip), 'distinct energies': len(Evals)}
     if strict:
-        bad = z3.Or([z3.And(E[xs] <= m, z3.Not(good(xs))) for xs in X])
+        bad = z3.Or([z3.And(t[0] <= m, z3.Not(good(t))) for t in trip])
         obs.append(Ob('%s: every ground state decodes to a feasible optimal solution with energy = cost' % tag, z3.Implies(pre, z3.Not(z3.And(lower, bad))),
-                      sig='%s ground states (strict threshold)' % tag))
+                      sig='%s ground states (strict threshold)' % tag, info=info))
     else:
-        some = z3.Or([z3.And(E[xs] <= m, good(xs)) for xs in X])
+        some = z3.Or([z3.And(t[0] <= m, good(t)) for t in trip])
         obs.append(Ob('%s: default weights: ground energy = optimal cost and some ground state is feasible-optimal' % tag,
-                      z3.Implies(z3.And(pre, lower, z3.Or([e <= m for e in E.values()])), some), sig='%s ground states (default weights)' % tag))
+                      z3.Implies(z3.And(pre, lower, z3.Or([e <= m for e in Evals])), some), sig='%s ground states (default weights)' % tag, info=info))
     if strict and nv >= 2:
-        obs.append(Ob('twin: the energy is not constant', z3.And(pre, z3.Or([E[X[0]] != e for e in E.values()])), expect_sat=True))
+        obs.append(Ob('twin: the energy is not constant', z3.And(pre, z3.Or([Evals[0] != e for e in Evals] or [z3.BoolVal(False)])), expect_sat=True))
     return obs
 
 
@@ -126,7 +144,7 @@ def make_setcover(ctx, system, log, mode, weighted):
             for i in range(n):
                 if xs[i]: c = c + ws[i] * B
             return c
-        obs += ground_obligations(ctx, 'SetCover', Q, nv, False, feas, cost, strict, max_nv=(15 if (not strict and not w) else 10))
+        obs += ground_obligations(ctx, 'SetCover', Q, nv, False, feas, cost, strict, max_nv=15)
         # problem-specific solve_bruteforce: feasible and of minimal weight
         okbf = isinstance(bf, set) and (set().union(*[V[i] for i in bf]) if bf else set()) == Uset
         obs.append(Ob('solve_bruteforce returns a cover', okbf, info={'bf': repr(bf)}))
@@ -473,8 +491,13 @@ def jobs(tier, seed):
         if T or system == 's1':
             add('SetCover/%s/log=%d/w=1/strict' % (system, T), 'make_setcover', dict(system=system, log=T, mode='strict', weighted=True))
         add('SetCover/%s/log=0/w=1/default' % system, 'make_setcover', dict(system=system, log=False, mode='default', weighted=True))
-    # (a set system in which the optimal cover covers one element three times while every subset has two elements needs 15 QUBO variables without
-    #  the log trick; 2^15 assignments per query did not finish in 25 minutes, so that shape is outside the bound -- seeded change C10-4B is not reported)
+    # a set system in which the optimal cover covers one element three times while every subset has two elements: 15 QUBO variables without
+    # the log trick (2^15 assignments, a few dozen distinct (energy, feasible, cost) triples)
+    for mode in ('strict', 'default'):
+        add('SetCover/s4/log=0/w=0/%s' % mode, 'make_setcover', dict(system='s4', log=False, mode=mode, weighted=False), budget=900)
+    if T:
+        add('SetCover/s4/log=1/w=0/strict', 'make_setcover', dict(system='s4', log=True, mode='strict', weighted=False))
+        add('SetCover/s4/log=0/w=1/strict', 'make_setcover', dict(system='s4', log=False, mode='strict', weighted=True))
     for g in (['path3', 'tri+pendant', 'star', 'mixed', 'edge'] + (['square', 'k4'] if T else [])):
         for mode in ('strict', 'default'):
             add('VertexCover/%s/%s' % (g, mode), 'make_vertexcover', dict(graph=g, mode=mode))
